@@ -152,8 +152,21 @@ def _run_impl(case):
         est = make_estimator(case)
         est.fit(X, case['y'])                       # input generation, outside the model
         nj = case.get('n_jobs', 1)
-        res = guarded(lambda: sorted(sorted(int(g) for g in e)
-                                     for e in parse_decision_tree_to_extents(est, X, n_jobs=nj)), 60)
+
+        def call():
+            if nj == 1:
+                return parse_decision_tree_to_extents(est, X)
+            import joblib
+            if case.get('joblib_backend', 'threading') == 'threading':
+                with joblib.parallel_backend('threading'):
+                    return parse_decision_tree_to_extents(est, X, n_jobs=nj)
+            try:
+                return parse_decision_tree_to_extents(est, X, n_jobs=nj)      # joblib's default (loky)
+            finally:
+                # idle loky workers live for 300 s and the harness worker process would wait for them
+                from joblib.externals.loky import get_reusable_executor
+                get_reusable_executor().shutdown(wait=True, kill_workers=True)
+        res = guarded(lambda: sorted(sorted(int(g) for g in e) for e in call()), 60)
         return {'arrays': tree_arrays(est), 'res': list(res)}
     if kind == 'forest':
         from sklearn.ensemble import RandomForestClassifier, RandomForestRegressor
@@ -335,12 +348,14 @@ def random_tree_case(rng, max_n, max_f):
 
 def parallel_tree_case(rng):
     """the joblib branch of parse_decision_tree_to_extents: a forest of >= 2 trees, n_jobs=2, tiny data
-    (rationed: the worker pool costs about a second to start)"""
+    (rationed: mostly joblib's threading back-end; with the default loky back-end the worker
+    pool costs about a second to start and has to be shut down afterwards)"""
     X, n = random_xy(rng, 6, 2)
     model = rng.choice(['rfc', 'rfr'])
     p = {'random_state': rng.randrange(1000), 'max_depth': rng.choice([1, 2, 3]),
          'n_estimators': rng.choice([2, 3, 5])}
-    return {'kind': 'tree', 'X': X, 'y': random_target(rng, n, model), 'model': model, 'params': p, 'n_jobs': 2}
+    return {'kind': 'tree', 'X': X, 'y': random_target(rng, n, model), 'model': model, 'params': p, 'n_jobs': 2,
+            'joblib_backend': 'loky' if rng.random() < 0.2 else 'threading'}
 
 
 def random_forest_case(rng, max_n, max_cols):
@@ -433,7 +448,8 @@ def stats(case):
             d['size'] = '%dx%d' % (len(case['data']), len(case['data'][0]))
             d['ps'] = 'numpy' if case.get('numpy_ps') else 'plain'
     else:
-        d.update({'model': case['model'], 'depth': case['params'].get('max_depth'), 'n_jobs': case.get('n_jobs', 1)})
+        d.update({'model': case['model'], 'depth': case['params'].get('max_depth'), 'n_jobs': case.get('n_jobs', 1),
+                  'joblib': case.get('joblib_backend', '-')})
         if k == 'forest':
             d['shape'] = case.get('shape', '')
     return d
